@@ -461,9 +461,13 @@ class Table(JupyterMixin):
                     0 if column.flexible else _range.maximum
                     for _range, column in zip(width_ranges, columns)
                 ]
+                # a flexible column is never squeezed below what its widest word needs
+                # (at least one cell, two for a double width character)
                 flex_minimum = [
-                    (column.width or 1) + get_padding_width(column._index)
-                    for column in columns
+                    (column.width + get_padding_width(column._index))
+                    if column.width
+                    else max(1 + get_padding_width(column._index), _range.minimum)
+                    for _range, column in zip(width_ranges, columns)
                     if column.flexible
                 ]
                 flexible_width = max_width - sum(fixed_widths)
